@@ -658,6 +658,14 @@ class TemplateIndex:
         # such helpers shows the same sinks as the template written out; the helpers the rules name stay calls
         from .inline import inline_fragments
         self.funcs = {fid: inline_fragments(idx, fi, keep=ANCHOR_HELPERS) for fid, fi in self.funcs.items()}
+        # `return A if T else B` (what a dispatching helper becomes once its branches are expressions): one return per branch, so that each is read under its test
+        from .strval import _LiftIfExp
+        import copy as _copy
+        for fid, fi in list(self.funcs.items()):
+            if isinstance(fi.node, ast.FunctionDef) and any(isinstance(r, ast.Return) and isinstance(r.value, ast.IfExp) for r in ast.walk(fi.node)):
+                node = _LiftIfExp().visit(_copy.deepcopy(fi.node))
+                ast.fix_missing_locations(node)
+                self.funcs[fid] = FuncInfo(fi.module, fi.qualname, node, fi.cls, fi.kind)
         self.sinks: Dict[str, List[Sink]] = {fid: sinks_of(fi) for fid, fi in self.funcs.items()}
 
     def resolve_func(self, fi: FuncInfo, name: str) -> Optional[FuncInfo]:
@@ -673,7 +681,7 @@ class TemplateIndex:
         """Sinks inside helper `fi` (and helpers it passes the value on to) whose underlying value is the parameter
         `param` (or an attribute of it)."""
         out: List[Sink] = []
-        if depth > 3:
+        if depth > 6:
             return out
         for s in self.sinks.get(fi.id, []):
             src = s.source
@@ -765,14 +773,14 @@ class TemplateIndex:
             if w.startswith('.'):
                 continue
             callee = self.resolve_func(s.fn, w)
-            if callee is not None and callee.id not in self.sinks and depth <= 4 and not s.quote and callee.module.startswith('pydbml.renderer') \
+            if callee is not None and callee.id not in self.sinks and depth <= 6 and not s.quote and callee.module.startswith('pydbml.renderer') \
                     and k == len(s.wrappers) - 1:
                 # the value is handed to a renderer helper whose text this engine could not read: the context is unknown, not "bare"
                 import copy as _copy
                 unknown = _copy.copy(s)
                 unknown.quote = '?'
                 return [(unknown, list(s.wrappers), list(s.guards), [s])]
-            if callee is None or callee.id not in self.sinks or depth > 4:
+            if callee is None or callee.id not in self.sinks or depth > 6:
                 continue
             params = [a.arg for a in callee.node.args.args]
             if not params:
